@@ -176,7 +176,7 @@ def run_one(args):
     BaseChannel.add_consumer_tag, BaseChannel.remove_consumer_tag = add_tag, remove_tag
     try:
         with tr:
-            ctx = vrt.run_scenario(scenario, refbroker.factory(policy), seed=seed, p_preempt=0.15, p_jump=0.1,
+            ctx = vrt.run_scenario(scenario, refbroker.factory(policy), seed=seed, p_preempt=sc.get('p_preempt', 0.15), p_jump=0.1, fair_time=sc.get('fair_time', False),
                                    repo_path=str(common.REPO))
     finally:
         BaseChannel.add_consumer_tag, BaseChannel.remove_consumer_tag = orig_add, orig_remove
@@ -280,6 +280,13 @@ def check(rep):
         jobs.append((d['scenario'], d['seed']))
     for _ in range(100 if not thorough else 3000):
         jobs.append((make_scenario(rng), rng.randrange(1 << 30)))
+    # a consumer is added on a queue with a backlog while another thread is consuming: the first delivery
+    # follows ConsumeOk at once (is the callback bound before anybody can dispatch it?), under heavy pre-emption
+    for _ in range(150 if not thorough else 3000):
+        sc = {'adders': [[('consume', 'ct1'), ('consume-backlog', 'bt2')]] + ([[('consume-backlog', 'bt3')]] if rng.random() < 0.4 else []),
+              'stopper': None, 'broker_cancels': 0, 'feeds': rng.randint(0, 3), 'consumer_thread': True,
+              'p_preempt': rng.choice([0.3, 0.5]), 'fair_time': True}
+        jobs.append((sc, rng.randrange(1 << 30)))
     lines, expect, owner = [], [], []
     for idx, ((sc, seed), r) in enumerate(zip(jobs, par.pmap(run_one, jobs))):
         n_consume = sum(1 for s in sc['adders'] for o in s if o[0].startswith('consume'))
